@@ -161,6 +161,55 @@ var worldCounter uint64
 // Close is kept for symmetry; worlds are only registered for hook routing while executing.
 func (w *World) Close() {}
 
+// Snapshot captures ledger registers, slab indices, contract code and counters.
+type Snapshot struct {
+	values  map[string][]byte
+	indices map[string]uint64
+	codes   map[common.AddressLocation][]byte
+	uuid    uint64
+	acctID  map[common.Address]uint64
+}
+
+func (w *World) Snapshot() Snapshot {
+	sn := Snapshot{values: map[string][]byte{}, indices: map[string]uint64{}, codes: w.snapshotCodes(), uuid: w.uuid,
+		acctID: map[common.Address]uint64{}}
+	for k, v := range w.Ledger.StoredValues {
+		sn.values[k] = v
+	}
+	for k, v := range w.Ledger.StorageIndices {
+		sn.indices[k] = v
+	}
+	for k, v := range w.acctID {
+		sn.acctID[k] = v
+	}
+	return sn
+}
+
+// Restore puts the world back into a snapshotted state (the ledger maps are refilled in place).
+func (w *World) Restore(sn Snapshot) {
+	for k := range w.Ledger.StoredValues {
+		delete(w.Ledger.StoredValues, k)
+	}
+	for k, v := range sn.values {
+		w.Ledger.StoredValues[k] = v
+	}
+	for k := range w.Ledger.StorageIndices {
+		delete(w.Ledger.StorageIndices, k)
+	}
+	for k, v := range sn.indices {
+		w.Ledger.StorageIndices[k] = v
+	}
+	w.Codes = map[common.AddressLocation][]byte{}
+	for k, v := range sn.codes {
+		w.Codes[k] = v
+	}
+	w.uuid = sn.uuid
+	w.acctID = map[common.Address]uint64{}
+	for k, v := range sn.acctID {
+		w.acctID[k] = v
+	}
+}
+
 // Unquote strips the quotes ProgramLog puts around logged strings.
 func Unquote(s string) string {
 	if len(s) >= 2 && s[0] == '"' && s[len(s)-1] == '"' {
